@@ -39,30 +39,37 @@ void harness(void) {
   VP_ASSUME(in_k >= 0 && in_k <= 16);
 #if defined(H_ADD)
   VP_ASSUME(a.nrows != b.nrows || a.ncols != b.ncols || c.nrows != a.nrows || c.ncols != a.ncols);
+  VP_CANARY();
   mzd_add(&c, &a, &b);
   MUST_NOT_RETURN("mzd_add");
 #elif defined(H_COPY)
   VP_ASSUME(c.nrows < a.nrows || c.ncols < a.ncols);
+  VP_CANARY();
   mzd_copy(&c, &a);
   MUST_NOT_RETURN("mzd_copy");
 #elif defined(H_TRANSPOSE)
   VP_ASSUME(c.nrows != a.ncols || c.ncols != a.nrows);
+  VP_CANARY();
   mzd_transpose(&c, &a);
   MUST_NOT_RETURN("mzd_transpose");
 #elif defined(H_MUL_NAIVE)
   VP_ASSUME(c.nrows != a.nrows || c.ncols != b.ncols);
+  VP_CANARY();
   mzd_mul_naive(&c, &a, &b);
   MUST_NOT_RETURN("mzd_mul_naive");
 #elif defined(H_ADDMUL_NAIVE)
   VP_ASSUME(c.nrows != a.nrows || c.ncols != b.ncols);
+  VP_CANARY();
   mzd_addmul_naive(&c, &a, &b);
   MUST_NOT_RETURN("mzd_addmul_naive");
 #elif defined(H_CONCAT)
   VP_ASSUME(a.nrows != b.nrows || c.nrows != a.nrows || c.ncols != a.ncols + b.ncols);
+  VP_CANARY();
   mzd_concat(&c, &a, &b);
   MUST_NOT_RETURN("mzd_concat");
 #elif defined(H_STACK)
   VP_ASSUME(a.ncols != b.ncols || c.ncols != a.ncols || c.nrows != a.nrows + b.nrows);
+  VP_CANARY();
   mzd_stack(&c, &a, &b);
   MUST_NOT_RETURN("mzd_stack");
 #elif defined(H_SUBMATRIX)
@@ -72,10 +79,12 @@ void harness(void) {
   VP_IN(int, in_hc);
   VP_ASSUME(0 <= in_lr && in_lr <= in_hr && in_hr <= a.nrows && 0 <= in_lc && in_lc <= in_hc && in_hc <= a.ncols);
   VP_ASSUME(c.nrows < in_hr - in_lr || c.ncols < in_hc - in_lc);
+  VP_CANARY();
   mzd_submatrix(&c, &a, in_lr, in_lc, in_hr, in_hc);
   MUST_NOT_RETURN("mzd_submatrix");
 #elif defined(H_MUL_M4RM)
   VP_ASSUME(a.ncols != b.nrows || c.nrows != a.nrows || c.ncols != b.ncols);
+  VP_CANARY();
   mzd_mul_m4rm(&c, &a, &b, in_k);
   MUST_NOT_RETURN("mzd_mul_m4rm");
 #elif defined(H_ADDMUL_M4RM)
@@ -85,43 +94,53 @@ void harness(void) {
   MUST_NOT_RETURN("mzd_addmul_m4rm");
 #elif defined(H_MUL)
   VP_ASSUME(a.ncols != b.nrows || c.nrows != a.nrows || c.ncols != b.ncols || in_cutoff < 0);
+  VP_CANARY();
   mzd_mul(&c, &a, &b, in_cutoff);
   MUST_NOT_RETURN("mzd_mul");
 #elif defined(H_ADDMUL)
   VP_ASSUME(a.ncols != b.nrows || c.nrows != a.nrows || c.ncols != b.ncols || in_cutoff < 0);
+  VP_CANARY();
   mzd_addmul(&c, &a, &b, in_cutoff);
   MUST_NOT_RETURN("mzd_addmul");
 #elif defined(H_TRSM_UPPER_RIGHT)
   VP_ASSUME(a.nrows != b.ncols || a.nrows != a.ncols);
+  VP_CANARY();
   mzd_trsm_upper_right(&a, &b, in_cutoff);
   MUST_NOT_RETURN("mzd_trsm_upper_right");
 #elif defined(H_TRSM_LOWER_RIGHT)
   VP_ASSUME(a.nrows != b.ncols || a.nrows != a.ncols);
+  VP_CANARY();
   mzd_trsm_lower_right(&a, &b, in_cutoff);
   MUST_NOT_RETURN("mzd_trsm_lower_right");
 #elif defined(H_TRSM_LOWER_LEFT)
   VP_ASSUME(a.ncols != b.nrows || a.nrows != a.ncols);
+  VP_CANARY();
   mzd_trsm_lower_left(&a, &b, in_cutoff);
   MUST_NOT_RETURN("mzd_trsm_lower_left");
 #elif defined(H_TRSM_UPPER_LEFT)
   VP_ASSUME(a.ncols != b.nrows || a.nrows != a.ncols);
+  VP_CANARY();
   mzd_trsm_upper_left(&a, &b, in_cutoff);
   MUST_NOT_RETURN("mzd_trsm_upper_left");
 #elif defined(H_PLE)
   VP_ASSUME(p.length != a.nrows || q.length != a.ncols);
+  VP_CANARY();
   mzd_ple(&a, &p, &q, in_cutoff);
   MUST_NOT_RETURN("mzd_ple");
 #elif defined(H_PLUQ)
   VP_ASSUME(p.length != a.nrows || q.length != a.ncols);
+  VP_CANARY();
   mzd_pluq(&a, &p, &q, in_cutoff);
   MUST_NOT_RETURN("mzd_pluq");
 #elif defined(H_SOLVE_LEFT)
   VP_ASSUME(a.ncols > b.nrows || b.nrows != (a.nrows > a.ncols ? a.nrows : a.ncols));
+  VP_CANARY();
   mzd_solve_left(&a, &b, in_cutoff, 1);
   MUST_NOT_RETURN("mzd_solve_left");
 #elif defined(H_PLUQ_SOLVE_LEFT)
   VP_IN(int, in_rank);
   VP_ASSUME(a.ncols > b.nrows || p.length != a.nrows || q.length != a.ncols);
+  VP_CANARY();
   mzd_pluq_solve_left(&a, in_rank, &p, &q, &b, in_cutoff, 1);
   MUST_NOT_RETURN("mzd_pluq_solve_left");
 #else
